@@ -1,2 +1,31 @@
-(* C05 — property theorems (being added). *)
-From Coq Require Import List ZArith.
+(* C05 — Trie multi-pattern queries are exact.
+   Property theorems only: each is closed by [exact] of a lemma from Proofs/, with Print Assumptions beneath.
+   The executable model is Model/Trie.v (a node is its word of rune values; node table; ring queue; fuelled loops);
+   [inserts ps] is the table after inserting the byte strings ps into the empty trie, [build] is BuildFailureLinks.
+   [lps inT w] is the longest proper suffix of w that is a trie word (the head of the proper suffixes of w, longest
+   first, filtered by membership). *)
+From Coq Require Import List ZArith Bool.
+From V Require Proofs.TrieAbs.
+From V Require Import Model.Trie Proofs.TrieTable Proofs.TrieBuild.
+Notation lps := TrieAbs.lps.
+Notation is_suffix := TrieAbs.is_suffix.
+Import ListNotations.
+
+(* what lps denotes *)
+Theorem c05_lps_is_longest_proper_suffix : forall (inT : list Z -> bool), inT [] = true -> forall w, w <> [] ->
+  inT (lps inT w) = true /\ is_suffix (lps inT w) w /\ length (lps inT w) < length w /\
+  (forall u, is_suffix u w -> length u < length w -> inT u = true -> length u <= length (lps inT w)).
+Proof. exact TrieAbs.lps_spec. Qed.
+Print Assumptions c05_lps_is_longest_proper_suffix.
+
+(* BuildFailureLinks (table, ring queue with growth, fuelled loops) terminates within its fuel on the trie of every
+   pattern set and sets the fail link of every non-root node to its longest proper suffix that is a trie word;
+   children, sizes, end flags and the node set are unchanged *)
+Theorem c05_build_failure_links_correct : forall ps : list (list Z),
+  let T0 := inserts ps in
+  exists T', build T0 = Some T' /\
+    (forall v, inT T0 v = true -> v <> [] -> fail_of T' v = Some (lps (inT T0) v)) /\
+    (forall w, kids_of T' w = kids_of T0 w /\ size_of T' w = size_of T0 w /\ is_end T' w = is_end T0 w /\ inT T' w = inT T0 w) /\
+    length T' = length T0.
+Proof. exact build_inserts_correct. Qed.
+Print Assumptions c05_build_failure_links_correct.
